@@ -68,7 +68,7 @@ structure Timer where
 
 /-- Where the `_join_and_sync` coroutine is suspended. -/
 inductive JPc where
-  | idle | coordLookup | metaLoad | prepare | join | loadParts (n : Nat) | sync
+  | idle | coordLookup | metaLoad | prepare | hang | join | loadParts (n : Nat) | sync
   deriving DecidableEq, Repr
 
 /-- One `shutdown_consumers()` in progress: `batch` = `current_consumers`, `pending` = the
@@ -108,6 +108,7 @@ structure St where
   asg : List (Nat × Int) := []       -- the assignment of the last successful sync
   stops : List StopCo := []
   leaveWait : Option (Option GErr × Bool) := none   -- `Coordinator.stop` awaiting the leave reply
+  stopDraining : Bool := false       -- `ConsumerGroup._stop_draining`: stop() is shutting the consumers down
   deriving Repr
 
 inductive CoordRes where | ok | none | err (e : GErr)
@@ -276,6 +277,9 @@ def cancelJoin (cfg : Cfg) (s : St) : Out :=
     | .prepare =>
       -- DeferredList cancelled -> FirstError -> stop every consumer of the batch; `_stopping` -> return
       andThen (stopCons s s.prep.batch) fun s => ({ s with jpc := .idle, prep := ⟨[], []⟩ }, [])
+    | .hang =>
+      -- the bare Deferred of `on_join_prepare` is cancelled: CancelledError escapes, only logged
+      ({ s with jpc := .idle }, [])
     | .join =>
       andThen ({ s with jpc := .idle }, [.cancelReq .joinR]) fun s => (rejoinCore cfg s .cancelled).1
     | .loadParts _ =>
@@ -328,13 +332,18 @@ def coordStop (cfg : Cfg) (s : St) (err : Option GErr) (user : Bool) : Out :=
     if s.rejoinWaitDc.any (fun id => !timerActive s id) then (s, [.raised "AlreadyCalled"]) else
     andThen (andThen (andThen (stopCancelDc s) (stopCancelHb cfg)) stopLooper) (leaveOrFinish cfg err user)
 
-/-- `ConsumerGroup.stop`: `while self.consumers: yield self.shutdown_consumers()`, then
+/-- the loop of `ConsumerGroup.stop`: `while self.consumers: yield self.shutdown_consumers()`, then
     `Coordinator.stop`. -/
-def stopCall (cfg : Cfg) (s : St) (err : Option GErr) (user : Bool) : Out :=
+def stopLoop (cfg : Cfg) (s : St) (err : Option GErr) (user : Bool) : Out :=
   if (heldCids s).isEmpty then coordStop cfg s err user
   else
     let (s, obs, d) := beginDrain s
     ({ s with stops := s.stops ++ [⟨d, err, user⟩] }, obs)
+
+/-- `ConsumerGroup.stop`: mark that the consumers are being shut down for a stop (so that no
+    JoinGroup exchange starts meanwhile), then the loop. -/
+def stopCall (cfg : Cfg) (s : St) (err : Option GErr) (user : Bool) : Out :=
+  stopLoop cfg (if s.started && !s.stopping then { s with stopDraining := true } else s) err user
 
 /-- `rejoin_after_error(failure)` -/
 def rejoinAfterError (cfg : Cfg) (s : St) (e : GErr) : Out :=
@@ -355,7 +364,11 @@ def afterPrepare (s : St) : Out :=
 
 /-- `on_join_prepare()` = `shutdown_consumers()` from `_join_and_sync` -/
 def prepare (s : St) : Out :=
-  if (heldCids s).isEmpty then afterPrepare s
+  if s.stopDraining then
+    -- `stop()` is waiting for the consumers: `on_join_prepare` returns a Deferred that never fires
+    -- (the stop cancels this join when it is done)
+    ({ s with jpc := .hang }, [])
+  else if (heldCids s).isEmpty then afterPrepare s
   else
     let (s, obs, d) := beginDrain s
     ({ s with jpc := .prepare, prep := d }, obs)
@@ -399,7 +412,7 @@ def consumerDown (cfg : Cfg) (s : St) (cid : Nat) (ok : Bool) : Out :=
         ({ s with stops := s.stops.map fun (c : StopCo) => if c.drain.pending.contains cid then { c with drain := d } else c }, [])
       else
         let s : St := { s with stops := s.stops.filter fun (c : StopCo) => !c.drain.pending.contains cid }
-        andThen (drainDone s d ok) fun s => stopCall cfg s co.err co.user
+        andThen (drainDone s d ok) fun s => stopLoop cfg s co.err co.user
   else (s, [])   -- its DeferredList has fired already: the result is consumed silently
 
 def step (cfg : Cfg) (s : St) : Ev → Out
